@@ -401,6 +401,24 @@ pub fn replay(args: &[String]) {
             }
         }
     }
+    // long strings: hash / eq / ord / lookups by &str around typical thresholds
+    for len in [0usize, 1, 63, 64, 65, 255, 256, 1023, 1024, 1025, 4095, 4096, 5001, 70_000] {
+        rep.checks += 1;
+        let base: String = (0..len).map(|i| ["a", "\u{e9}", "\u{65e5}", "\u{1F600}"][i % 4]).collect::<String>();
+        let other = format!("{}x", &base[..base.len().saturating_sub(0)]);
+        let (sa, sb) = (SharedString::from(base.as_str()), SharedString::from(other.clone()));
+        let hs = |f: &dyn Fn(&mut DefaultHasher)| { let mut s = DefaultHasher::new(); f(&mut s); s.finish() };
+        let mut set = std::collections::HashSet::new();
+        set.insert(sa.clone());
+        let mut map = std::collections::BTreeMap::new();
+        map.insert(sa.clone(), 1);
+        if hs(&|s| sa.hash(s)) != hs(&|s| base.as_str().hash(s)) || !set.contains(base.as_str()) || set.contains(other.as_str())
+            || map.get(base.as_str()) != Some(&1) || (sa == sb) || sa.cmp(&sb) != base.as_str().cmp(other.as_str())
+            || hs(&|s| sa.clone().into_bytes().hash(s)) != hs(&|s| base.as_bytes().hash(s))
+        {
+            rep.mismatch(json!({"what":"a long SharedString does not hash / compare / look up like its str","len":base.len()}));
+        }
+    }
     rep.print();
 }
 
